@@ -22,6 +22,10 @@
                             that holds the spawner (the Spawn instruction adds c to `spawning` and
                             emits the SpawnAction in one atomic slice, so "Spawn action pending" is
                             not a separate state of the model).
+     arrival_log_is_mailbox_history : on every worker the DeliverMessages handled for target t (the
+                            ghost arrival log restricted to t) ARE, as a list, p_arrived of t —
+                            everything ever appended to t's mailbox; with per_link_fifo this makes
+                            the FIFO theorems statements about mailboxes.
      no_lost_wakeup, three of the four clauses of Inv_parked (DESIGN.md §5 C04), each as an invariant
      over all schedules:
        awaited_completion_never_unseen : no process in `awaited` has a result between steps;
@@ -32,11 +36,6 @@
                                          cursor at the end of its mailbox (for slices that park
                                          honestly: `honest_run`, the select machine of C05).
    NOT PROVED (partial; full statements kept here):
-     arrival = mailbox    : that p_arrived of process t IS the arrival log of its worker restricted
-                            to t (with scheduler_well_formed "a process record is never replaced" is
-                            now available; the pass over the worker operations is not written).
-                            Proved: no message is ever dropped (no_message_dropped) and the CDeliver
-                            handler appends to the mailbox of an existing process (wakeup_on_message).
      no_lost_wakeup_partial : the fourth clause of Inv_parked — "p in selecting, p awaits t, t has
                             a result  ->  the answer is in flight (ProcessResults event, pending_awaits
                             entry or UpdateAwaitResults command)" — and with it the corollary
@@ -47,7 +46,7 @@
                             premise); the implementation-level quiescence oracle + wake-up probe of
                             qv_sim check the global statement on every explored run. *)
 From Quiver Require Import sys.Proto sys.ProtoMsg sys.ProtoFifo sys.ProtoDeliver sys.ProtoFail sys.ProtoWake sys.ProtoExamples
-  sys.ProtoWf sys.ProtoParked sys.ProtoSpawnInv.
+  sys.ProtoWf sys.ProtoParked sys.ProtoSpawnInv sys.ProtoArrive.
 
 (* every stamped message that was sent is — counted with multiplicity — in exactly one of: the
    arrival log of a worker (its DeliverMessage was handled), a command queue (DeliverMessage in
@@ -241,3 +240,16 @@ Theorem C04_parked_premises_nonvacuous : exists s nd pr,
   time_honest 0 {| d_taken := []; d_sel := Some parked_sel; d_forget := []; d_act := None; d_park := true; d_fin := None; d_heapy := false |}.
 Proof. exact parked_premises_hold. Qed.
 Print Assumptions C04_parked_premises_nonvacuous.
+
+Theorem C04_arrival_log_is_mailbox_history : forall nw sigma s,
+  0 < nw -> run (init nw) sigma = Good s ->
+  forall i nd t, nth_error (s_nodes s) i = Some nd ->
+    tgt t (w_arrlog (n_w nd)) = arr t (n_w nd).
+Proof. exact arrival_log_is_mailbox_history. Qed.
+Print Assumptions C04_arrival_log_is_mailbox_history.
+
+Theorem C04_arrival_history_nonvacuous : exists s nd,
+  run (init 2) fanin_schedule = Good s /\ nth_error (s_nodes s) 1 = Some nd /\
+  tgt 1 (w_arrlog (n_w nd)) = [mkMsg 2 0 0] /\ arr 1 (n_w nd) = [mkMsg 2 0 0].
+Proof. exact arrival_history_nonempty. Qed.
+Print Assumptions C04_arrival_history_nonvacuous.
